@@ -526,6 +526,12 @@ const WITNESSES: &[(&str, &str, usize, usize, &str)] = &[
     "function a() { return 1 }\n",
   ),
   ("rust", "fn a() {}\nfn bb() { 1; }\nfn c() {}\n", 0, 10, ""),
+  // a byte order mark is text like any other (white space in JavaScript): a document that starts
+  // with one, an edit that leaves one at offset 0, an edit that inserts one there
+  ("javascript", "\u{feff}let a = 1;\nlet b = 2;\n", 7, 1, "zz"),
+  ("javascript", "x;\u{feff}let a = 1;\nlet b = 2;\n", 0, 2, ""),
+  ("javascript", "let a = 1;\nlet b = 2;\n", 0, 0, "\u{feff}"),
+  ("typescript", "\u{feff}\u{feff}let a: number = 1;\n", 0, 3, ""),
 ];
 
 /// witness of the residual difference that is tree-sitter's own (incremental re-use of the keyword
@@ -623,6 +629,10 @@ pub fn editdoc(ctx: &Ctx, rng: &mut Rng, o: &mut Out) {
       o.oracle("c10_tree", false, json!({"fp": "witness outside the quantifier", "input": a}));
       continue;
     }
+    text_cases += 1;
+    if sg.source() != new_text {
+      o.oracle("c10_text", false, json!({"fp": "text is not the splice: witness", "input": a, "got": sg.source(), "want": new_text}));
+    }
     tree_cases += 1;
     if let Err(d) = tree_verdict(&sg, lang) {
       tree_fail += 1;
@@ -644,7 +654,11 @@ pub fn editdoc(ctx: &Ctx, rng: &mut Rng, o: &mut Out) {
     let b = &bases[(attempts - 1) % bases.len()];
     // larger documents emphasised: 2/3 of the histories run on 5-20 KB
     let target = if rng.chance(2, 3) && !b.more.is_empty() { 5_000 + rng.below(15_000) } else { b.unit.len() + rng.below(2_500) };
-    let text0 = build_text(b, target);
+    let mut text0 = build_text(b, target);
+    // now and then a document that starts with a byte order mark (kept only where the grammar takes it)
+    if rng.chance(1, 12) {
+      text0.insert(0, '\u{feff}');
+    }
     let mut sg = b.lang.ast_grep(&text0);
     let mut nodes = dfs(&sg.root());
     if !clean(&nodes) {
